@@ -339,6 +339,7 @@ pub fn resolve_sem_with(
         props: &props,
         labels: &labels,
         cfg,
+        binders: &gen::BINDERS,
     };
     let fs: Vec<F> = build(&env, &raw.fs);
     let depth = fs.iter().map(|f| f.quant_depth()).max().unwrap_or(0);
